@@ -40,6 +40,8 @@ impl Prop for C12 {
             rebuild: 0,
             extra: 1,
             pressure: 3,
+            mass_delete: 0,
+            big: 1,
         };
         let cfg = EvCfg {
             kind_weights: [2, 3, 4, 1, 1],
@@ -49,6 +51,9 @@ impl Prop for C12 {
     }
     fn label_floors(&self) -> Vec<(&'static str, f64)> {
         vec![("failed-store", 0.5), ("failed-after-effects", 0.15)]
+    }
+    fn release_fraction(&self, tier: Tier) -> f64 {
+        tier.pick(0.25, 0.5)
     }
     fn max_shrink_iters(&self) -> u32 {
         400
